@@ -5,6 +5,11 @@ import json, os
 ROOT = os.path.dirname(os.path.dirname(os.path.abspath(__file__)))
 
 CHECKS = {
+ "C14": dict(
+  technique="runtime monitor: round-trip oracle (generated value -> spelling -> lex/parse/build/execute -> read-back through getters) on one-literal programs",
+  text="All strings of length<=2 (3 thorough) over an 11-character alphabet with quotes, backslash, control and 2/3/4-byte characters in 1-, 3- and 4-quote spellings; all byte vectors of length<=2 over 7 byte values in numeric and character spellings; 20 boundary integers in every radix 2..36 with separators and leading zeros; floats in decimal and exponent form; ASCII and multi-byte symbol names; plus random literals. Each is compiled and run on both stores and the value, the element getters and the store's symbol-name table are compared with the generated value.",
+  note="trusts the spelling rules listed in the evidence assumptions; negative numbers have no literal and are outside the property",
+  design="DESIGN.md §5 C14"),
  "C15": dict(
   technique="runtime monitor: abstract model of independent growable tables checked after every operation of bounded-exhaustive and random operation histories + structural invariant hooks (block layout, stack heads, intern cache)",
   text="Every history of length<=4 (6 thorough) over 9 operation kinds on SimpleGarnishData and on BasicGarnishData under 9 size/growth configurations (initial 0,1,2 x +1,+2,x2, default), with a full read-back of all data values, symbol names, instructions, jump entries, registers, value stack and frame chain plus the block-layout invariant after every single operation; every interning sequence of length 3 (4) over 15 constants including hash-stream alias pairs; random histories of 1500 (10000) operations.",
